@@ -4,7 +4,7 @@ Require Extraction.
 Require Import ExtrOcamlBasic.
 From Coq Require Import List NArith ZArith.
 From Coq.Strings Require Import Byte.
-From Mcap Require Import Bytes GoSem Crc32 Records Writer Lexer Reader Ros1Msg Bag Db3 Py.
+From Mcap Require Import Bytes GoSem Crc32 Records Writer Lexer Reader Ros1Msg Bag Db3 Py Ros2Schema.
 Extraction Language OCaml.
 Extraction "model.ml" Bytes.byte_of_N Byte.to_N Crc32.crc32 Writer.W Writer.file_of
   Records.parse_header Lexer.lex_all Lexer.lex_next Lexer.new_lexer
@@ -14,4 +14,4 @@ Extraction "model.ml" Bytes.byte_of_N Byte.to_N Crc32.crc32 Writer.W Writer.file
   Records.parse_sumoffset Records.parse_dataend
   Ros1Msg.parse_msgdef Bag.bag2mcap Db3.db3_to_mcap
   Py.stream_records Py.ns_iter_messages Py.ns_get_header Py.ns_get_summary Py.ns_iter Py.is_att Py.is_md Py.sk_init
-  Py.sk_get_summary Py.sk_get_header Py.sk_iter_messages Py.sk_iter_attachments Py.sk_iter_metadata Py.py_write Py.limit_4g.
+  Py.sk_get_summary Py.sk_get_header Py.sk_iter_messages Py.sk_iter_attachments Py.sk_iter_metadata Py.py_write Py.limit_4g Ros2Schema.get_schemas.
